@@ -139,7 +139,7 @@ def callSemLz (w : World) (h : Head) (args : List Den) (lams : List LamD)
   match h with
   | .fn n => fnCallLz w n args lams.tail kwn kwv
   | .meth recv m =>
-    if m ∈ opNames then fnCallLz w m (recv :: args) lams [] []
+    if m ∈ opNames then fnCallLz w m (recv :: args) lams kwn kwv
     else fun env => do
       let r ← recv env
       let vs ← evalAll args env
